@@ -44,7 +44,7 @@ func CheckC07(l *Lab, verifDir string) int {
 			var ts []c07Tunnel
 			for i := 0; i < n; i++ {
 				sc := c07Scripts[rnd.Intn(len(c07Scripts))]
-				if n == 1 && (sc == "attack-neighbor" || sc == "legacy-id-variant") {
+				if n == 1 && (sc == "attack-neighbor" || sc == "legacy-id-variant" || sc == "neighbor-cookie-own-host") {
 					sc = "ok-stream"
 				}
 				if kind != "openid" && (sc == "bad-cookie" || sc == "neighbor-cookie-own-host") {
@@ -77,6 +77,7 @@ func c07Round(rep *Report, m *MultiFixture, round int, ts []c07Tunnel) {
 	var evs []seqEv
 	wantAccepts := map[int]int{}
 	wantBytes := map[int][]byte{}
+	var ended [][2]string
 	for _, tn := range ts {
 		wg.Add(1)
 		go func(tn c07Tunnel) {
@@ -93,6 +94,9 @@ func c07Round(rep *Report, m *MultiFixture, round int, ts []c07Tunnel) {
 			}
 			wantAccepts[tn.User] += out.accepts
 			wantBytes[tn.User] = out.hostBytes
+			if out.wsConnID != "" {
+				ended = append(ended, [2]string{fmt.Sprint(tn.User), out.wsConnID})
+			}
 			rep.Count("tunnels", 1)
 			rep.Count("script/"+tn.Script, 1)
 			for _, e := range out.log {
@@ -138,6 +142,16 @@ func c07Round(rep *Report, m *MultiFixture, round int, ts []c07Tunnel) {
 				map[string]any{"round": round, "tunnels": ts})
 		}
 	}
+	// connection ids of ended sessions are used again by other users: the new tunnel must be the new user's
+	for k, e := range ended {
+		if k >= 3 {
+			break
+		}
+		var owner int
+		fmt.Sscanf(e[0], "%d", &owner)
+		other := m.Users[(owner+1)%len(m.Users)]
+		c07Reuse(rep, m, other, m.Users[owner], e[1], round)
+	}
 	sort.Slice(evs, func(i, j int) bool { return evs[i].seq < evs[j].seq })
 	var sb strings.Builder
 	for _, e := range evs {
@@ -148,6 +162,7 @@ func c07Round(rep *Report, m *MultiFixture, round int, ts []c07Tunnel) {
 }
 
 type c07Out struct {
+	wsConnID     string // connection id of an ended websocket session (for the reuse phase)
 	inconclusive string
 	accepts      int
 	hostBytes    []byte
@@ -210,16 +225,19 @@ func c07One(m *MultiFixture, tn c07Tunnel) *c07Out {
 		out.fromCase(res)
 		return out
 	case "legacy-id-variant":
-		return c07IDVariant(m, tn, env, u, rnd)
+		return c07IDVariant(m, tn, env, u, v, rnd)
 	}
 	// ok-stream / ok-idle-close
-	t, bc, _, err := m.Stage(env, u, 4)
+	t, bc, sid, err := m.Stage(env, u, 4)
 	if err != nil {
 		out.inconclusive = "stage: " + err.Error()
 		return out
 	}
 	defer t.Close()
 	out.accepts = 1
+	if tn.Transport == "ws" {
+		out.wsConnID = sid
+	}
 	keyC, keyH := uint64(tn.Seed)|1, uint64(tn.Seed)+2
 	var streamC, streamH []byte
 	if tn.Script == "ok-stream" {
@@ -283,10 +301,12 @@ func c07One(m *MultiFixture, tn c07Tunnel) *c07Out {
 
 // c07IDVariant: tunnel A (legacy, own id) runs a session while an intruder
 // opens an IN channel under an id that differs in case / one character.
-func c07IDVariant(m *MultiFixture, tn c07Tunnel, env *TunnelEnv, u *MUser, rnd *rand.Rand) *c07Out {
+func c07IDVariant(m *MultiFixture, tn c07Tunnel, env *TunnelEnv, u, v *MUser, rnd *rand.Rand) *c07Out {
 	out := &c07Out{}
 	id := fmt.Sprintf("Conn-%d-%x-Q", tn.Rank, uint32(tn.Seed))
-	variants := []string{strings.ToLower(id), strings.ToUpper(id), id[:len(id)-1] + "R", id + "x", id[1:]}
+	// (the last variant is the id itself: a second IN channel of another user under the same id
+	// must be refused without touching the live tunnel)
+	variants := []string{strings.ToLower(id), strings.ToUpper(id), id[:len(id)-1] + "R", id + "x", id[1:], id, id}
 	vid := variants[rnd.Intn(len(variants))]
 	evFrom := m.GW.EventCount()
 	d := DialOpts{}
@@ -300,13 +320,13 @@ func c07IDVariant(m *MultiFixture, tn c07Tunnel, env *TunnelEnv, u *MUser, rnd *
 	t.Send(m.SymHS().Wire)
 	t.WaitPackets(1, W)
 	// intruder: IN only, under the variant id, pushing a whole session
-	x, xres, _ := OpenLegacy(m.GW.Addr, LegacyOpts{Dial: d, ConnID: vid, SkipOut: true, InHeaders: u.Headers, Preamble: []byte("PPPPPPPPPPPPPPPP")})
+	x, xres, _ := OpenLegacy(m.GW.Addr, LegacyOpts{Dial: d, ConnID: vid, SkipOut: true, InHeaders: v.Headers, Preamble: []byte("PPPPPPPPPPPPPPPP")})
 	inStatus := 0
 	if xres != nil && xres.In != nil {
 		inStatus = xres.In.Status
 	}
 	if x != nil {
-		for _, s := range []Sym{m.SymHS(), m.SymTC(u), SymTAx(), SymCCx(u.B)} {
+		for _, s := range []Sym{m.SymHS(), m.SymTC(v), SymTAx(), SymCCx(v.B)} {
 			x.Send(s.Wire)
 		}
 		time.Sleep(2 * time.Millisecond)
@@ -332,9 +352,54 @@ func c07IDVariant(m *MultiFixture, tn c07Tunnel, env *TunnelEnv, u *MUser, rnd *
 	out.detail = map[string]any{"id": id, "variant": vid, "intruder_in_status": inStatus, "trace": snap.Log}
 	want := "HSr(0x0) TCr(0x0) TAr(0x0) CCr(0x0) CLOSEr(0x0)"
 	if strings.Join(obs, " ") != want {
-		out.problem("paired-with-foreign-id", "tunnel %q received %v while a second IN channel under id %q was active; alone it receives %s", id, obs, vid, want)
+		out.problem("paired-with-foreign-id", "tunnel %q of user %s received %v while a second IN channel (user %s) under id %q was active; alone it receives %s", id, u.Name, obs, v.Name, vid, want)
 	}
 	out.accepts = 1
 	out.hostBytes = []byte{0x77}
 	return out
+}
+
+// c07Reuse: user `other` opens a websocket tunnel under a connection id that an
+// ended tunnel of user `owner` used: it must be authorised as `other`.
+func c07Reuse(rep *Report, m *MultiFixture, other, owner *MUser, connID string, round int) {
+	for _, target := range []*MUser{other, owner} {
+		env := m.Env(other, "ws")
+		env.W = 15 * time.Second
+		t, _, err := env.OpenTunnel(connID)
+		if err != nil || t == nil {
+			rep.Inconclusive(fmt.Sprintf("reuse open: %v", err))
+			return
+		}
+		steps := []Sym{m.SymHS(), m.SymTC(other), SymTAx(), SymCCx(target.B)}
+		var st uint32 = 0xFFFFFFFF
+		ok := true
+		for i, s := range steps {
+			t.Send(s.Wire)
+			if n, _ := t.WaitPackets(i+1, env.W); n < i+1 {
+				ok = false
+				break
+			}
+			st, _ = LenientStatus(t.Snapshot().Packets[i].Raw)
+			if i < 3 && st != 0 {
+				ok = false
+				break
+			}
+		}
+		t.Close()
+		rep.Eval(HashStr("id-reuse", round, other.Name == target.Name, st))
+		rep.Count("id_reuse_probes", 1)
+		if !ok {
+			rep.Violate("C07/reused-id-tunnel-broken", fmt.Sprintf("user %s under the connection id of an ended tunnel of user %s: the steps before channel-create were not accepted (status %#x)", other.Name, owner.Name, st), nil)
+			return
+		}
+		if target == other && st != 0 {
+			rep.Violate("C07/identity-from-earlier-tunnel", fmt.Sprintf("user %s reusing the connection id of an ended tunnel of user %s may not open its own host (status %#x)", other.Name, owner.Name, st), nil)
+		}
+		if target == owner && st == 0 {
+			rep.Violate("C07/identity-from-earlier-tunnel", fmt.Sprintf("user %s reusing the connection id of an ended tunnel of user %s was allowed to open that user's host", other.Name, owner.Name), nil)
+		}
+	}
+	for _, u := range []*MUser{other, owner} {
+		u.B.Reset()
+	}
 }
